@@ -118,7 +118,8 @@ func MinFunc(query *Query, current Map, functionOptions *FunctionOptions, args [
 		return nil, err
 	}
 	allNull := true
-	min := math.MaxFloat64
+	// the identity of min is +Inf: a group holding only +Inf has that minimum
+	min := math.Inf(1)
 	for _, item := range *slice {
 		if item == nil {
 			continue
@@ -155,7 +156,8 @@ func MaxFunc(query *Query, current Map, functionOptions *FunctionOptions, args [
 		return nil, err
 	}
 	allNull := true
-	min := -math.MaxFloat64
+	// the identity of max is -Inf: a group holding only -Inf has that maximum
+	min := math.Inf(-1)
 	for _, item := range *slice {
 		if item == nil {
 			continue
